@@ -483,9 +483,24 @@ pub struct ShardCtx<'a> {
     pub inflight: Option<PathBuf>,
 }
 
-/// Drive `check` over `cases` generated choice-streams of at most `max_choices` u32s.
-/// New violations are shrunk by proptest and appended to `acc.violations`; the search continues
-/// past them (and past known findings) until the case budget is used.
+/// shard number used when a property's run_shard is entered from a fuzz target (see fuzzing.rs)
+pub const FUZZ_SHARD: usize = 1 << 40;
+impl ShardCtx<'_> {
+    pub fn fuzzing(&self) -> bool {
+        self.shard == FUZZ_SHARD
+    }
+}
+
+pub struct FuzzState {
+    pub choices: Vec<u32>,
+    pub select:  usize,
+    pub seen:    usize,
+    pub result:  Option<CaseResult>,
+}
+thread_local! {
+    pub static FUZZ: RefCell<Option<FuzzState>> = const { RefCell::new(None) };
+}
+
 thread_local! {
     static SHRINK_ITERS: std::cell::Cell<u32> = const { std::cell::Cell::new(1500) };
     static MAX_ROUNDS: std::cell::Cell<u64> = const { std::cell::Cell::new(12) };
@@ -497,6 +512,9 @@ pub fn set_search_limits(shrink_iters: u32, max_new_signatures: u64) {
     MAX_ROUNDS.with(|c| c.set(max_new_signatures));
 }
 
+/// Drive `check` over `cases` generated choice-streams of at most `max_choices` u32s.
+/// New violations are shrunk by proptest and appended to `acc.violations`; the search continues
+/// past them (and past known findings) until the case budget is used.
 pub fn drive(
     ctx: &ShardCtx,
     stream: &str,
@@ -505,6 +523,29 @@ pub fn drive(
     acc: &mut Acc,
     check: &dyn Fn(&mut Chooser, &mut Acc) -> CaseResult,
 ) {
+    // fuzz mode (see fuzzing.rs): the k-th `drive` of the property's run_shard runs its closure once on
+    // the fuzzer's choices, every other `drive` does nothing
+    let fuzz_choices = FUZZ.with(|f| {
+        let mut f = f.borrow_mut();
+        match f.as_mut() {
+            None => None,
+            Some(st) => {
+                let k = st.seen;
+                st.seen += 1;
+                Some(if k == st.select { Some(st.choices.clone()) } else { None })
+            }
+        }
+    });
+    if let Some(sel) = fuzz_choices {
+        if let Some(choices) = sel {
+            let _ = (cases, max_choices, stream);
+            let mut ch = Chooser::new(&choices);
+            acc.case();
+            let r = check(&mut ch, acc);
+            FUZZ.with(|f| f.borrow_mut().as_mut().unwrap().result = Some(r));
+        }
+        return;
+    }
     let mut remaining = cases as i64;
     let mut round = 0u64;
     let mut reported: HashSet<String> = acc.violations.iter().map(|v| v.signature.clone()).collect();
